@@ -95,3 +95,11 @@ def replay(ctx, path):
     ctx.tier = obj.get("tier", ctx.tier)
     rc = run(ctx)
     return rc
+
+
+def pregen(ctx):
+    from . import tlreg
+    hb, _ = T.build_tl_harness(ctx)
+    reg = ctx.work + "/registry.txt"
+    C.sh([hb, "registry", reg], env=ctx.env(), timeout=300)
+    tlreg.write_registry_v(reg)
